@@ -33,6 +33,18 @@ def strict_rule(chk, run, fn, construct, lower_tag, upper_tag=None):
         for e in list({id(e.node): e for e in picks}.values()):
             chk.ob("R-STRICT", "%s{total: %s}" % (construct, " ".join(ast.unparse(e.node).split())), "the fractions scale the final value of the measure (element [-1])",
                    e.index.const == -1, derived="element [%r]" % (e.index.const,), loc=e.loc, stmt=e.stmt)
+    # the same strictness when the crossings are located by bisection of the (ascending) measure: the first sample STRICTLY above the lower
+    # bound is searchsorted(measure, bound, side='right'); the last sample STRICTLY below the upper bound is searchsorted(measure, bound,
+    # side='left') - 1.  The other side counts a sample that sits exactly on the bound
+    for e in run.events("lib-call", fn):
+        if e.name != "numpy.searchsorted" or len(e.args) < 2 or e.args[0].kind != K_ARRAY:
+            continue
+        sd = e.kwargs.get("side") or (e.args[2] if len(e.args) > 2 else None)
+        side = sd.const if (sd is not None and sd.has_const()) else ("left" if sd is None else None)
+        for tag, want in ((lower_tag, "right"), (upper_tag, "left")):
+            if tag is not None and tag in e.args[1].tags and not (lower_tag in e.args[1].tags and upper_tag is not None and upper_tag in e.args[1].tags):
+                chk.ob("R-STRICT", "%s{bisection side: %s}" % (construct, tag), "a sample exactly on the bound is not between the bounds: side=%r for %s" % (want, tag),
+                       side == want, derived="side=%r" % (side,), loc=e.loc, stmt=e.stmt, inconclusive=side is None)
     for tag, want_small in ((lower_tag, True), (upper_tag, False)):
         if tag is None:
             continue
